@@ -269,6 +269,8 @@ class MapInst(Inst):
         from sympde.topology.mapping import BasicMapping
         if isinstance(e, Indexed) and isinstance(e.base, BasicMapping):
             return self.F[int(e.indices[0])]
+        if isinstance(e, sympy.NumberSymbol):      # pi in the Collela mapping
+            return e
         return super().inst(e)
 
 
